@@ -18,6 +18,7 @@ import (
 	"testing"
 	"testing/synctest"
 
+	ocispec "github.com/opencontainers/image-spec/specs-go/v1"
 	"oras.land/oras-go/v2"
 	"oras.land/oras-go/v2/content"
 	"oras.land/oras-go/v2/errdef"
@@ -78,7 +79,14 @@ func runTwin(t *testing.T, sc *Scenario, tr *vh.Tracer) (hang bool) {
 				if sc.RefDst {
 					dst = &dstRefW{dw}
 				}
-				o := oras.CopyOptions{CopyGraphOptions: oras.CopyGraphOptions{Concurrency: sc.C}}
+				cb := func(kind string) func(context.Context, ocispec.Descriptor) error {
+					return func(_ context.Context, d ocispec.Descriptor) error {
+						ctr.Emit(map[string]any{"e": "cb", "k": kind, "n": g.NodeOf(d)})
+						return nil
+					}
+				}
+				o := oras.CopyOptions{CopyGraphOptions: oras.CopyGraphOptions{Concurrency: sc.C, PreCopy: cb("pre"), PostCopy: cb("post"),
+					OnCopySkipped: cb("skipped")}}
 				d, err := oras.Copy(bg, sw, srcRef, dst, refs[call-1], o)
 				ctr.Emit(map[string]any{"e": "ret", "err": err != nil, "root": g.NodeOf(d), "msg": errMsg(err)})
 				finished <- call
